@@ -1283,7 +1283,116 @@ example : setListing [.bytes "prefix-prefix-B", .int 3, .str "a", .bytes "prefix
       [.bool true, .byte 7, .bytes "prefix-prefix-A", .bytes "prefix-prefix-B", .flt (-1), .int 3, .nil, .str "a"] := by
   decide
 
+/-! ## several tables merged in a fixed order; candidates probed in a priority order
+
+`DefaultGlobals` (the builtin tables of five packages written one after the other into the globals
+map; `sprintf` is defined by two of them) and `readFileWithExtensions` (`.risor` before `.rsr`). -/
+
+theorem foldl_set_lookup (t : List (String × V)) (hd : KeysDistinct t) (m : String → Option V) (k : String) :
+    (t.foldl (fun (m : String → Option V) kv => fun k' => if k' = kv.1 then some kv.2 else m k') m) k =
+      match (t.find? (fun kv => kv.1 == k)).map (·.2) with
+      | some v => some v
+      | none => m k := by
+  induction t generalizing m with
+  | nil => rfl
+  | cons a t ih =>
+    have hd' := List.pairwise_cons.1 hd
+    rw [List.foldl_cons, ih hd'.2]
+    by_cases hk : a.1 = k
+    · have hnone : t.find? (fun kv => kv.1 == k) = none := by
+        apply List.find?_eq_none.2
+        intro x hx
+        have := hd'.1 x hx
+        simp only [beq_iff_eq]
+        intro h; exact this (hk.trans h.symm)
+      simp [hk, hnone]
+    · have hne : (a.1 == k) = false := by simpa using hk
+      simp only [List.find?_cons, hne]
+      cases (t.find? (fun kv => kv.1 == k)).map (·.2) with
+      | some v => rfl
+      | none =>
+        show (if k = a.1 then some a.2 else m k) = m k
+        rw [if_neg (fun h => hk h.symm)]
+
+theorem foldInsert_all_lookup (t : List (String × V)) (hd : KeysDistinct t) (m : AMap V) (k : String) :
+    foldInsert (fun _ _ => true) (fun _ v => v) t m k =
+      match (t.find? (fun kv => kv.1 == k)).map (·.2) with
+      | some v => some v
+      | none => m k :=
+  foldl_set_lookup t hd m k
+
+/-- **several tables, fixed table order**: whatever the visiting order INSIDE each table is, the
+    merged map is the same (all numbers of tables, all sizes, tables may share names); a pair is
+    one table under two visiting orders -/
+theorem merge_tables_perm_invariant (tabs : List (List (String × V) × List (String × V)))
+    (h : ∀ p ∈ tabs, p.1.Perm p.2 ∧ KeysDistinct p.1) (m0 : AMap V) :
+    mergeTables (tabs.map (·.1)) m0 = mergeTables (tabs.map (·.2)) m0 := by
+  unfold mergeTables
+  induction tabs generalizing m0 with
+  | nil => rfl
+  | cons p ps ih =>
+    simp only [List.map_cons, List.foldl_cons]
+    have hp := h p (List.mem_cons_self ..)
+    rw [insert_fold_perm_invariant _ _ hp.1 hp.2 m0]
+    exact ih (fun q hq => h q (List.mem_cons_of_mem _ hq)) _
+
+/-- … and every name is bound to what the LAST table (in slice order) that defines it says: a name
+    defined by two tables is resolved by the order of the slice, never by a visiting order -/
+theorem merge_tables_last_wins (tabs : List (List (String × V))) (hd : ∀ t ∈ tabs, KeysDistinct t)
+    (m0 : AMap V) (k : String) : mergeTables tabs m0 k = lastDefining tabs m0 k := by
+  induction tabs generalizing m0 with
+  | nil => rfl
+  | cons t ts ih =>
+    have e : mergeTables (t :: ts) m0 = mergeTables ts (foldInsert (fun _ _ => true) (fun _ v => v) t m0) := rfl
+    rw [e, ih (fun t' ht => hd t' (List.mem_cons_of_mem _ ht))]
+    unfold lastDefining
+    rw [List.reverse_cons, List.findSome?_append]
+    cases ts.reverse.findSome? (fun t => (t.find? (fun kv => kv.1 == k)).map (·.2)) with
+    | some v => rfl
+    | none =>
+      simp only [Option.none_or, List.findSome?_cons, List.findSome?_nil]
+      rw [foldInsert_all_lookup t (hd t (List.mem_cons_self ..)) m0 k]
+      cases (t.find? (fun kv => kv.1 == k)).map (·.2) <;> rfl
+
+/-- the forbidden variant — the tables themselves held in a Go map and merged in ITS visiting
+    order — is refuted: two tables that define `sprintf`, two visiting orders, two bindings -/
+theorem mergeTablesRanged_counterexample :
+    mergeTablesRanged [0, 1] [[("sprintf", "builtins"), ("len", "builtins")], [("sprintf", "fmt"), ("printf", "fmt")]] AMap.empty "sprintf" = some "fmt" ∧
+    mergeTablesRanged [1, 0] [[("sprintf", "builtins"), ("len", "builtins")], [("sprintf", "fmt"), ("printf", "fmt")]] AMap.empty "sprintf" = some "builtins" := by
+  decide
+
+/-- tables without a shared name: there the forbidden variant is harmless (why no ordinary test sees it) -/
+example : mergeTablesRanged [0, 1] [[("len", "builtins")], [("printf", "fmt")]] AMap.empty "len" =
+    mergeTablesRanged [1, 0] [[("len", "builtins")], [("printf", "fmt")]] AMap.empty "len" := by decide
+
+/-- **candidates probed in priority order**: the module's file is the FIRST extension of the list
+    whose file exists — a function of the list and the filesystem alone (all lists, all filesystems) -/
+theorem pickExtension_first (exts : List String) (present : String → Bool) (e : String) :
+    pickExtension exts present = some e ↔
+      present e = true ∧ ∃ pre post, exts = pre ++ e :: post ∧ ∀ x ∈ pre, (!present x) = true := by
+  unfold pickExtension
+  exact List.find?_eq_some_iff_append
+
+theorem pickExtension_none (exts : List String) (present : String → Bool) :
+    pickExtension exts present = none ↔ ∀ x ∈ exts, ¬ present x = true := by
+  unfold pickExtension
+  exact List.find?_eq_none
+
+/-- the forbidden variant — every candidate probed at once, the first answer to ARRIVE wins — is
+    refuted: `which.risor` and `which.rsr` both exist, two arrival orders, two different modules -/
+theorem pickExtensionRaced_counterexample :
+    pickExtensionRaced [0, 1] [".risor", ".rsr"] (fun _ => true) = some ".risor" ∧
+    pickExtensionRaced [1, 0] [".risor", ".rsr"] (fun _ => true) = some ".rsr" ∧
+    pickExtension [".risor", ".rsr"] (fun _ => true) = some ".risor" := by
+  decide
+
+/-- with a single existing candidate the raced variant agrees with the code (why no test with one
+    file per module sees it) -/
+example : pickExtensionRaced [1, 0] [".risor", ".rsr"] (fun e => e == ".rsr") = pickExtension [".risor", ".rsr"] (fun e => e == ".rsr") := by
+  decide
+
 /-! ## non-vacuity -/
+
 
 /-- a program inside the guard that uses every construct, under two different annotations -/
 def sampleProg (perm : List Nat) : Prog :=
